@@ -82,6 +82,8 @@ var c07States = []c07State{
 	{"rom-only/lcd-on/stat-sources/lyc-reached/odd-sequencer-step/lengths-at-1", 0x00, 0, 0, []c07W{{0xff41, 0x78}, {0xff45, 0x16}, {0xff26, 0x80}, {0xff25, 0xff}, {0xff11, 0x3f}, {0xff12, 0xf0}, {0xff14, 0x80},
 		{0xff16, 0x3f}, {0xff17, 0xf0}, {0xff19, 0x80}, {0xff1a, 0x80}, {0xff1b, 0xff}, {0xff1c, 0x20}, {0xff1e, 0x80}, {0xff20, 0x3f}, {0xff21, 0xf0}, {0xff23, 0x80}}, 2600, nil},
 	{"mbc5/lcd-on-line-0/odd-sequencer-step/timer-about-to-overflow", 0x1b, 2, 3, c07Cat([]c07W{{0x0000, 0x0a}, {0xff06, 0xfe}, {0xff05, 0xff}, {0xff07, 0x05}, {0xff41, 0x40}, {0xff45, 0x00}}, c07APURunning), 17556 + 2050, nil},
+	{"mbc1/lcd-on/ch1-upward-sweep-armed-just-below-overflow/wave-playing", 0x03, 2, 3, []c07W{{0xff26, 0x80}, {0xff25, 0xff}, {0xff24, 0x77}, {0xff12, 0xf0}, {0xff10, 0x17}, {0xff13, 0x00}, {0xff14, 0x87},
+		{0xff1a, 0x80}, {0xff1c, 0x20}, {0xff1d, 0x00}, {0xff1e, 0x87}}, 1025, nil},
 	{"rom-only/lcd-on/buttons-held-with-no-group-selected", 0x00, 0, 0, []c07W{{0xff00, 0x30}, {0xff0f, 0x00}, {0xffff, 0x1f}}, 900, []int{4, 3, 6}},
 	{"mbc1/2k-ram/lcd-off/wave-running", 0x03, 1, 1, []c07W{{0x0000, 0x0a}, {0xa000, 0x99}, {0xff40, 0x00}, {0xff1a, 0x80}, {0xff1c, 0x40}, {0xff1d, 0x00}, {0xff1e, 0x87}}, 777, nil},
 }
@@ -429,7 +431,7 @@ var c07Boundaries = []int{0x0000, 0x00ff, 0x0100, 0x1fff, 0x2000, 0x2fff, 0x3000
 	0xc000, 0xddff, 0xde00, 0xdfff, 0xe000, 0xfdff, 0xfe00, 0xfe9f, 0xfea0, 0xfeff}
 
 func TestC07(t *testing.T) {
-	c := vf.New(t, "C07", "from 12 machine states (every controller type, LCD on/off, every STAT source selected with LYC = LY, APU on/off with channels, sweep and length counters running incl. counters at 1 on an odd sequencer step, timer running and about to overflow, buttons held with no group selected, clock register selected, 2 KiB RAM): "+
+	c := vf.New(t, "C07", "from 13 machine states (every controller type, LCD on/off, every STAT source selected with LYC = LY, APU on/off with channels, sweep and length counters running incl. counters at 1 on an odd sequencer step, timer running and about to overflow, buttons held with no group selected, channel 1's upward sweep armed just below overflow, clock register selected, 2 KiB RAM): "+
 		"I/O sweep FF00-FFFF x 16 values (quick) / all 256 (thorough), one write per fresh machine; memory sweep 0000-FEFF x {00, FF, pseudo-random} over region boundaries and every 37th address (quick) / every address (thorough), 32 writes per machine; "+
 		"plus rapid (state, extra preamble writes, cycles, 1-6 writes). All 64 KiB are read before and after every write and the changed set is compared with the documented effect set of the address. "+
 		"Non-trivial: the write changed what at least one location reads. Distinct = (state, address, value) in the sweeps (by construction), hash of (state class, address, value class) for rapid cases.")
@@ -479,9 +481,9 @@ func TestC07(t *testing.T) {
 		}
 		c.Bulk("io-write", n, nt)
 		if thorough {
-			c.Exhaustive("12 machine states x FF00-FFFF x all 256 values, one write per fresh machine")
+			c.Exhaustive("13 machine states x FF00-FFFF x all 256 values, one write per fresh machine")
 		} else {
-			c.Exhaustive("12 machine states x FF00-FFFF x 16 values {walking bit, 00, FF, 7F, 0A, 55, AA, 2 pseudo-random}, one write per fresh machine")
+			c.Exhaustive("13 machine states x FF00-FFFF x 16 values {walking bit, 00, FF, 7F, 0A, 55, AA, 2 pseudo-random}, one write per fresh machine")
 		}
 	})
 
@@ -549,7 +551,7 @@ func TestC07(t *testing.T) {
 		}
 		c.Bulk("memory-write", n, nt)
 		if thorough {
-			c.Exhaustive("12 machine states x every address 0000-FEFF x {00, FF, pseudo-random}, 32 consecutive addresses per machine")
+			c.Exhaustive("13 machine states x every address 0000-FEFF x {00, FF, pseudo-random}, 32 consecutive addresses per machine")
 		}
 	})
 
